@@ -58,19 +58,6 @@ def early_ack(prefix, impl=None, spec=None):
     return any(op.split()[1:2] == ['early'] for op in prefix)
 
 
-def ping_slot(prefix, impl=None, spec=None):
-    out = 0
-    for op in prefix:
-        w = op.split()
-        if w[1:3] == ['api', 'ping'] or (w[1:2] == ['early'] and w[2:3] == ['ping']):
-            out += 1
-            if out >= 2:
-                return True
-        elif w[1:3] == ['peer', 'pingresp']:
-            out = max(0, out - 1)
-    return False
-
-
 def dup_filter_cb(prefix, impl, spec):
     """E9: one request's callback registered under two filters that match the same topic is invoked
     once per filter.  The deviation is exactly that: dropping repeated identical CB items satisfies the oracle."""
@@ -103,7 +90,7 @@ def mk(pid, runs):
     register(Prop(pid, 'Mqtt.Properties.' + pid, ['client', 'ackq'], runs=runs,
                   oracle=by_core({'client': client_oracle, 'ackq': ackq_oracle}),
                   nontrivial=by_core({'client': client_nontrivial, 'ackq': ackq_nontrivial}),
-                  spec_total=False, classes={'early_ack': early_ack, 'ping_slot': ping_slot, 'dup_filter_cb': dup_filter_cb},
+                  spec_total=False, classes={'early_ack': early_ack, 'dup_filter_cb': dup_filter_cb},
                   assumptions=CLIENT_ASSUMPTIONS, trusted=COMMON_TRUSTED))
 
 
@@ -124,5 +111,5 @@ if _c02 is not None:
                                    Run('ackq', quick=40000, thorough=300000, seeds_thorough=4)]
     _c02.oracle = by_core({'broker': _pb.broker_oracle, 'client': client_oracle, 'ackq': ackq_oracle})
     _c02.nontrivial = by_core({'broker': _pb.broker_nontrivial, 'client': client_nontrivial, 'ackq': ackq_nontrivial})
-    _c02.classes = dict(_c02.classes, early_ack=early_ack, ping_slot=ping_slot, dup_filter_cb=dup_filter_cb)
+    _c02.classes = dict(_c02.classes, early_ack=early_ack, dup_filter_cb=dup_filter_cb)
     _c02.assumptions = list(_c02.assumptions) + CLIENT_ASSUMPTIONS
